@@ -4,8 +4,11 @@
         implementation's output;
      2  the implementation's output fails the property checker (documented glob
         meaning + last match wins + pruning);
-     4  (only with 2) some pattern of the case has a bracket class that admits
-        '/': the known-finding class [known_C14];
+     4  (only with 2, never with 1) the known-finding class [known_C14]: some
+        pattern of the case has a bracket class that admits '/', AND the
+        implementation's output is exactly what the doublestar reading of the
+        model predicts - so the departure from the documented meaning is the
+        known one and nothing else;
      8  the harness fed an input outside the model's grammar. *)
 From Coq Require Import List Bool Arith String Ascii.
 Import ListNotations.
@@ -64,9 +67,11 @@ Definition mverdict (c : mcase) : nat :=
     let parsed := parse_glob (str_of pat) in
     let run (strict : bool) := option_map (fun cs => glob_match strict cs (str_of name)) parsed in
     let bad := negb (obool_eqb res (run true)) in
-    bit (negb (obool_eqb res (run false))) 1
+    let agrees := obool_eqb res (run false) in
+    bit (negb agrees) 1
     + bit bad 2
-    + bit (bad && match parsed with Some cs => existsb comp_admits_slash cs | None => false end) 4
+    + bit (bad && agrees
+           && match parsed with Some cs => existsb comp_admits_slash cs | None => false end) 4
   | KParse raw res =>
     if negb (in_grammar (str_of raw)) then 8 else
     let model := option_map (fun p => (negated p, dir_only p, match_leaf p,
@@ -90,7 +95,8 @@ Definition mverdict (c : mcase) : nat :=
       | None => 1
       | Some out =>
         let bad := negb (ores_eqb (Some out) (Some spec)) in
-        bit (negb (ores_eqb (Some out) (Some model))) 1 + bit bad 2 + bit (bad && known_C14 pats) 4
+        let agrees := ores_eqb (Some out) (Some model) in
+        bit (negb agrees) 1 + bit bad 2 + bit (bad && agrees && known_C14 pats) 4
       end
     end
   | KScan vcs raws tree snap consulted =>
@@ -100,8 +106,8 @@ Definition mverdict (c : mcase) : nat :=
       let '(e, log) := scan (mut_ignorer false vcs pats) tree in
       let impl_log := map (fun pd => EvIgnore (rp_of (fst pd)) (snd pd)) consulted in
       let bad := negb (check_C14_scan vcs pats tree s) in
-      bit (negb (entry_eqb e s && same_events (consults log) impl_log)) 1
-      + bit bad 2 + bit (bad && known_C14 pats) 4
+      let agrees := entry_eqb e s && same_events (consults log) impl_log in
+      bit (negb agrees) 1 + bit bad 2 + bit (bad && agrees && known_C14 pats) 4
     | _, _ => 1
     end
   | KVcs names => bit (negb (strs_eqb names vcs_names)) 1
